@@ -271,6 +271,13 @@ class MockCuda:
         _ = dims  # silence "not used" warning
         return self.x, self.y
 
+    class atomic:
+        @staticmethod
+        def add(array, idx, value):
+            old = array[idx]
+            array[idx] += value
+            return old
+
 
 if importlib.util.find_spec('numba') is not None:
     import numba
